@@ -179,3 +179,204 @@ Proof.
     destruct (pack_one_placed m ops wq idx nd init pl out i a H) as (pl' & E' & H'). exists pl'. split; assumption.
   - exists []. split; [cbn [fst]; rewrite app_nil_r; reflexivity | constructor].
 Qed.
+
+(* ---------- completeness of the needed-symmetry list: every bonded image of a numbered fragment is asked for ---------- *)
+
+Definition has (bs : need (T:=R)) (acc : list (need (T:=R))) : Prop := existsb (need_eqb ROps bs) acc = true.
+
+Lemma need_eqb_refl (bs : need (T:=R)) : need_eqb ROps bs bs = true.
+Proof.
+  unfold need_eqb. cbn [o_eqb ROps]. rewrite Nat.eqb_refl, Z.eqb_refl.
+  repeat match goal with |- context [Req_EM_T ?x ?x] => destruct (Req_EM_T x x) as [_ | N]; [|exfalso; apply N; reflexivity] end.
+  reflexivity.
+Qed.
+
+Lemma need_eqb_eq (a b : need (T:=R)) : need_eqb ROps a b = true ->
+  nd_n b = nd_n a /\ nd_fx b = nd_fx a /\ nd_fy b = nd_fy a /\ nd_fz b = nd_fz a /\ nd_mol b = nd_mol a.
+Proof.
+  unfold need_eqb. cbn [o_eqb ROps]. intros H.
+  apply andb_true_iff in H. destruct H as [H Hm]. apply andb_true_iff in H. destruct H as [H Hz].
+  apply andb_true_iff in H. destruct H as [H Hy]. apply andb_true_iff in H. destruct H as [Hn Hx].
+  apply Nat.eqb_eq in Hn. apply Z.eqb_eq in Hm.
+  destruct (Req_EM_T (nd_fx a) (nd_fx b)); [|discriminate].
+  destruct (Req_EM_T (nd_fy a) (nd_fy b)); [|discriminate].
+  destruct (Req_EM_T (nd_fz a) (nd_fz b)); [|discriminate].
+  repeat split; congruence.
+Qed.
+
+Lemma has_app bs acc x : has bs acc -> has bs (acc ++ x).
+Proof. unfold has. intros H. rewrite existsb_app, H. reflexivity. Qed.
+
+(* the body of the loop over the operators in collect_needed_symmetry *)
+Definition need_step (m : metric (T:=R)) (a1 a2 : satom (T:=R)) (mi : Z) (acc : list (need (T:=R))) (ns : nat * sop (T:=R)) : list (need (T:=R)) :=
+  let '(n, s) := ns in
+  if negb (Z.eqb (sa_part a1) 0) && negb (Z.eqb (sa_part a2) 0) && negb (Z.eqb (sa_part a1) (sa_part a2)) then acc
+  else if Z.eqb (sa_an a1) (sa_an a2) && sa_h a1 then acc
+  else
+    let '((fx, fy, fz), dk) := candidate ROps m s a1 a2 in
+    if Nat.eqb n 0 && eq0 ROps fx && eq0 ROps fy && eq0 ROps fz then acc
+    else
+      let dddd := if sa_h a1 && sa_h a2 then cst ROps 18 10 else bond_limit ROps a1 a2 in
+      if ltb ROps (cst ROps 1 1000) dk && negb (ltb ROps dddd dk) then
+        let bs := {| nd_n := n; nd_fx := fx; nd_fy := fy; nd_fz := fz; nd_mol := mi |} in
+        if existsb (need_eqb ROps bs) acc then acc else acc ++ [bs]
+      else acc.
+
+Lemma need_step_mono m a1 a2 mi bs acc ns : has bs acc -> has bs (need_step m a1 a2 mi acc ns).
+Proof.
+  intros H. unfold need_step. destruct ns as [n s].
+  destruct (negb (Z.eqb (sa_part a1) 0) && negb (Z.eqb (sa_part a2) 0) && negb (Z.eqb (sa_part a1) (sa_part a2))); [exact H|].
+  destruct (Z.eqb (sa_an a1) (sa_an a2) && sa_h a1); [exact H|].
+  destruct (candidate ROps m s a1 a2) as [[[fx fy] fz] dk].
+  destruct (Nat.eqb n 0 && eq0 ROps fx && eq0 ROps fy && eq0 ROps fz); [exact H|].
+  match goal with |- has _ (if ?c then _ else _) => destruct c end; [|exact H].
+  match goal with |- has _ (if ?c then _ else _) => destruct c end; [exact H | apply has_app; exact H].
+Qed.
+
+Lemma need_of_item_unfold m ops atoms idx acc it a1 a2 :
+  it_cov it = true -> (1 <= get_idx idx (it_a1 it))%Z -> nth_error atoms (it_a1 it) = Some a1 -> nth_error atoms (it_a2 it) = Some a2 ->
+  need_of_item ROps m ops atoms idx acc it = fold_left (need_step m a1 a2 (get_idx idx (it_a1 it))) (number_from 0 ops) acc.
+Proof.
+  intros Cov Mi A1 A2. unfold need_of_item. rewrite Cov. cbn [negb].
+  destruct (Z.ltb_spec (get_idx idx (it_a1 it)) 1) as [L | _]; [lia|]. rewrite A1, A2. reflexivity.
+Qed.
+
+Lemma need_of_item_mono m ops atoms idx bs acc it : has bs acc -> has bs (need_of_item ROps m ops atoms idx acc it).
+Proof.
+  intros H. unfold need_of_item.
+  destruct (negb (it_cov it)); [exact H|].
+  destruct (Z.ltb (get_idx idx (it_a1 it)) 1); [exact H|].
+  destruct (nth_error atoms (it_a1 it)) as [a1|]; [|exact H].
+  destruct (nth_error atoms (it_a2 it)) as [a2|]; [|exact H].
+  apply (fold_left_inv (need_step m a1 a2 (get_idx idx (it_a1 it))) (has bs)); [|exact H].
+  intros acc' ns _ H'. apply need_step_mono. exact H'.
+Qed.
+
+Lemma fold_left_reaches {A B} (f : A -> B -> A) (P : A -> Prop) (x : B) :
+  (forall a, P (f a x)) -> (forall a y, P a -> P (f a y)) -> forall l a, In x l -> P (fold_left f l a).
+Proof.
+  intros Hx Hm. induction l as [|y r IH]; intros a I; [destruct I|]. cbn [fold_left].
+  destruct I as [-> | I]; [|apply IH; exact I].
+  apply fold_left_inv; [intros; apply Hm; assumption | apply Hx].
+Qed.
+
+Lemma number_from_In {A} (l : list A) : forall i k x, nth_error l k = Some x -> In ((i + k)%nat, x) (number_from i l).
+Proof.
+  induction l as [|y r IH]; intros i [|k] x H; cbn [nth_error] in H; try discriminate; cbn [number_from].
+  - injection H as ->. left. f_equal. lia.
+  - right. replace (i + S k)%nat with (S i + k)%nat by lia. apply IH. exact H.
+Qed.
+
+Theorem needed_symmetry_complete m ops atoms items idx it a1 a2 n s fx fy fz dk :
+  In it items -> it_cov it = true -> (1 <= get_idx idx (it_a1 it))%Z ->
+  nth_error atoms (it_a1 it) = Some a1 -> nth_error atoms (it_a2 it) = Some a2 -> nth_error ops n = Some s ->
+  (sa_part a1 = 0 \/ sa_part a2 = 0 \/ sa_part a1 = sa_part a2)%Z ->        (* not in two different non-zero PARTs *)
+  ~ (sa_an a1 = sa_an a2 /\ sa_h a1 = true) ->                               (* not a hydrogen - hydrogen contact *)
+  candidate ROps m s a1 a2 = ((fx, fy, fz), dk) ->
+  ~ (n = 0%nat /\ fx = 0 /\ fy = 0 /\ fz = 0) ->                              (* not the atom itself *)
+  1 / 1000 < dk -> dk <= (if sa_h a1 && sa_h a2 then 18 / 10 else bond_limit ROps a1 a2) ->
+  exists nd, In nd (needed_symmetry ROps m ops atoms items idx) /\
+             nd_n nd = n /\ nd_fx nd = fx /\ nd_fy nd = fy /\ nd_fz nd = fz /\ nd_mol nd = get_idx idx (it_a1 it).
+Proof.
+  intros Iit Cov Mi A1 A2 Sn Parts NotHH Cand NotSelf Lo Hi.
+  set (bs := {| nd_n := n; nd_fx := fx; nd_fy := fy; nd_fz := fz; nd_mol := get_idx idx (it_a1 it) |}).
+  assert (H : has bs (needed_symmetry ROps m ops atoms items idx)).
+  { unfold needed_symmetry.
+    apply (fold_left_reaches (need_of_item ROps m ops atoms idx) (has bs) it); [| intros; apply need_of_item_mono; assumption | exact Iit].
+    intros acc. rewrite (need_of_item_unfold m ops atoms idx acc it a1 a2 Cov Mi A1 A2).
+    apply (fold_left_reaches (need_step m a1 a2 (get_idx idx (it_a1 it))) (has bs) (n, s));
+      [| intros; apply need_step_mono; assumption | apply (number_from_In ops 0 n s Sn)].
+    intros acc'. unfold need_step.
+    assert (P : negb (Z.eqb (sa_part a1) 0) && negb (Z.eqb (sa_part a2) 0) && negb (Z.eqb (sa_part a1) (sa_part a2)) = false).
+    { destruct (Z.eqb_spec (sa_part a1) 0); destruct (Z.eqb_spec (sa_part a2) 0); destruct (Z.eqb_spec (sa_part a1) (sa_part a2)); cbn [negb andb];
+        try reflexivity. exfalso. destruct Parts as [E | [E | E]]; contradiction. }
+    rewrite P.
+    assert (Q : Z.eqb (sa_an a1) (sa_an a2) && sa_h a1 = false).
+    { destruct (Z.eqb_spec (sa_an a1) (sa_an a2)) as [E | E]; [|reflexivity]. destruct (sa_h a1) eqn:Hh; [|reflexivity].
+      exfalso. apply NotHH. split; [exact E | reflexivity]. }
+    rewrite Q. rewrite Cand.
+    assert (S0 : Nat.eqb n 0 && eq0 ROps fx && eq0 ROps fy && eq0 ROps fz = false).
+    { unfold eq0. cbn [o_eqb ROps cst o_const Rconst].
+      destruct (Nat.eqb_spec n 0) as [En | En]; [|reflexivity]. cbn [andb].
+      destruct (Req_EM_T fx 0) as [Ex | Ex]; [|reflexivity]. cbn [andb].
+      destruct (Req_EM_T fy 0) as [Ey | Ey]; [|reflexivity]. cbn [andb].
+      destruct (Req_EM_T fz 0) as [Ez | Ez]; [|reflexivity].
+      exfalso. apply NotSelf. repeat split; assumption. }
+    rewrite S0.
+    assert (W : ltb ROps (cst ROps 1 1000) dk && negb (ltb ROps (if sa_h a1 && sa_h a2 then cst ROps 18 10 else bond_limit ROps a1 a2) dk) = true).
+    { unfold ltb. cbn [o_ltb ROps cst o_const Rconst].
+      destruct (Rlt_dec (1 / 1000) dk) as [_ | N]; [|contradiction]. cbn [andb].
+      destruct (sa_h a1 && sa_h a2).
+      - destruct (Rlt_dec (18 / 10) dk) as [L | _]; [lra | reflexivity].
+      - destruct (Rlt_dec (bond_limit ROps a1 a2) dk) as [L | _]; [lra | reflexivity]. }
+    rewrite W. fold bs.
+    destruct (existsb (need_eqb ROps bs) acc') eqn:Ex; [exact Ex|].
+    unfold has. rewrite existsb_app. cbn [existsb]. rewrite need_eqb_refl. rewrite orb_true_r. reflexivity. }
+  unfold has in H. apply existsb_exists in H. destruct H as (nd & Ind & E).
+  exists nd. split; [exact Ind|]. apply need_eqb_eq in E. cbn [nd_n nd_fx nd_fy nd_fz nd_mol bs] in E. exact E.
+Qed.
+
+(* ---------- completeness of the packer: every atom of a needed fragment image is appended, unless an atom of the same
+   (non-negative) PART already lies within 0.2 A of that place ---------- *)
+Definition placed_or_there (m : metric (T:=R)) (i : nat) (n : nat) (part : Z) (nx ny nz : R)
+           (st : list (Z * (R * R * R)) * list (grown (T:=R))) : Prop :=
+  (exists g, In g (snd st) /\ g_src g = i /\ g_n g = n /\ g_x g = nx /\ g_y g = ny /\ g_z g = nz /\ g_part g = part) \/
+  ((0 <= part)%Z /\ exists x y z, In (part, (x, y, z)) (fst st) /\ vlen ROps m (nx - x) (ny - y) (nz - z) < 2 / 10).
+
+Lemma pack_one_shape m ops wq idx nd st ia :
+  exists sh out, pack_one ROps m ops wq idx nd st ia = (fst st ++ sh, snd st ++ out).
+Proof.
+  destruct st as [shown outl]. destruct ia as [i a]. unfold pack_one. cbn [fst snd].
+  destruct ((negb wq && sa_qpeak a) || negb (Z.eqb (get_idx idx i) (nd_mol nd)) || sa_qpeak a);
+    [exists [], []; rewrite !app_nil_r; reflexivity|].
+  destruct (nth_error ops (nd_n nd)) as [s|]; [|exists [], []; rewrite !app_nil_r; reflexivity].
+  destruct (apply ROps s (sa_x a) (sa_y a) (sa_z a)) as [[px py] pz].
+  match goal with |- exists _ _, (if ?c then _ else _) = _ => destruct c end;
+    [exists [], []; rewrite !app_nil_r; reflexivity | eexists; eexists; reflexivity].
+Qed.
+
+Lemma placed_or_there_mono m ops wq idx nd i n part nx ny nz st ia :
+  placed_or_there m i n part nx ny nz st -> placed_or_there m i n part nx ny nz (pack_one ROps m ops wq idx nd st ia).
+Proof.
+  intros H. destruct (pack_one_shape m ops wq idx nd st ia) as (sh & out & ->). unfold placed_or_there in *. cbn [fst snd].
+  destruct H as [(g & Ig & R) | (Pp & x & y & z & Is & L)].
+  - left. exists g. split; [apply in_or_app; left; exact Ig | exact R].
+  - right. split; [exact Pp|]. exists x, y, z. split; [apply in_or_app; left; exact Is | exact L].
+Qed.
+
+Lemma pack_one_does m ops wq idx nd st i a s px py pz :
+  sa_qpeak a = false -> get_idx idx i = nd_mol nd -> nth_error ops (nd_n nd) = Some s ->
+  apply ROps s (sa_x a) (sa_y a) (sa_z a) = (px, py, pz) ->
+  placed_or_there m i (nd_n nd) (sa_part a) (px + (5 - nd_fx nd - 5)) (py + (5 - nd_fy nd - 5)) (pz + (5 - nd_fz nd - 5))
+                  (pack_one ROps m ops wq idx nd st (i, a)).
+Proof.
+  intros Q E Es Ap. destruct st as [shown out]. unfold pack_one.
+  rewrite Q, andb_false_r, orb_false_r, orb_false_l. rewrite E, Z.eqb_refl. cbn [negb]. rewrite Es, Ap.
+  change (cst ROps 5 1) with 5.
+  set (nx := px + (5 - nd_fx nd - 5)). set (ny := py + (5 - nd_fy nd - 5)). set (nz := pz + (5 - nd_fz nd - 5)).
+  match goal with |- placed_or_there _ _ _ _ _ _ _ (if ?c then _ else _) => destruct c eqn:There end.
+  - right. apply andb_true_iff in There. destruct There as [Pp Ex]. apply Z.leb_le in Pp. split; [exact Pp|].
+    apply existsb_exists in Ex. destruct Ex as ([pp [[x y] z]] & Is & C). cbn [fst snd] in C.
+    apply andb_true_iff in C. destruct C as [Ep L]. apply Z.eqb_eq in Ep. subst pp.
+    exists x, y, z. split; [exact Is|].
+    unfold ltb in L. cbn [o_ltb ROps cst o_const Rconst] in L.
+    match type of L with (if ?d then _ else _) = true => destruct d as [L' | _]; [exact L' | discriminate] end.
+  - left. cbn [snd]. eexists. split; [apply in_or_app; right; left; reflexivity|]. cbn [g_src g_n g_x g_y g_z g_part]. repeat split; reflexivity.
+Qed.
+
+Theorem packer_complete m ops atoms idx needs wq nd i a s px py pz :
+  In nd needs -> nth_error atoms i = Some a -> sa_qpeak a = false -> get_idx idx i = nd_mol nd ->
+  nth_error ops (nd_n nd) = Some s -> apply ROps s (sa_x a) (sa_y a) (sa_z a) = (px, py, pz) ->
+  placed_or_there m i (nd_n nd) (sa_part a) (px + (5 - nd_fx nd - 5)) (py + (5 - nd_fy nd - 5)) (pz + (5 - nd_fz nd - 5))
+    (fold_left (fun st nd => fold_left (pack_one ROps m ops wq idx nd) (number_from 0 atoms) st) needs
+               (omap (fun a => if negb wq && sa_qpeak a then None else Some (sa_part a, (sa_x a, sa_y a, sa_z a))) atoms, [])).
+Proof.
+  intros Ind Ha Q E Es Ap.
+  set (P := placed_or_there m i (nd_n nd) (sa_part a) (px + (5 - nd_fx nd - 5)) (py + (5 - nd_fy nd - 5)) (pz + (5 - nd_fz nd - 5))).
+  apply (fold_left_reaches (fun st nd => fold_left (pack_one ROps m ops wq idx nd) (number_from 0 atoms) st) P nd); [| | exact Ind].
+  - intros st. apply (fold_left_reaches (pack_one ROps m ops wq idx nd) P (i, a)).
+    + intros st'. apply (pack_one_does m ops wq idx nd st' i a s px py pz); assumption.
+    + intros st' ia H. apply placed_or_there_mono. exact H.
+    + apply (number_from_In atoms 0 i a Ha).
+  - intros st nd' H. apply fold_left_inv; [|exact H]. intros st' ia _ H'. apply placed_or_there_mono. exact H'.
+Qed.
